@@ -21,6 +21,10 @@ def flowMainOk (kvs : List (Str × Val)) : Bool :=
       hdr flowF2H p != msgHdr || decide (alookup t flowMainArg = some p.1.1)
   | _ => false
 
+/-- the keys of `row_type_to_main_arg` are trimmed, so the type cell `unparse_row` writes for a row whose
+type is one of them is looked up as written -/
+theorem flow_main_keys_trimmed : ∀ kv ∈ flowMainArg, strip pyWs kv.1 = kv.1 := by decide +kernel
+
 theorem flow_static :
     (flowRowFields.all fun f => simpleName f.1 && simpleName (remap flowF2H f.1)) = true ∧
     (flowRowFields.map (·.1)).Nodup ∧ goodFields flowRowFields = true ∧
@@ -140,7 +144,7 @@ theorem flow_roundtrip (lay : Layout) (kvs : List (Str × Val))
           refine ⟨p.1.1, ?_, (S1 p.1 hmem).1, remap_nil _⟩
           rw [hmsg]
           exact ctxRemap_main flowRowSchema cells msgHdr typeCol flowMainArg flow_main S6 t p.1.1
-            htcell h1
+            htcell (by rw [strip_of_alookup flowMainArg flow_main_keys_trimmed t _ h1]; exact h1)
         · rcases S5 p.1 hmem with (h | h) | h
           · exact absurd h hrm
           · exact absurd h hmsg
